@@ -90,6 +90,7 @@ type gtTr struct {
 	structs    []*gvar
 	usedFields map[string]map[string]bool
 	usedVars   map[string]bool
+	fieldNames map[string]bool
 	brk        []brkTarget
 }
 
@@ -242,9 +243,9 @@ func (tr *gtTr) expr(e ast.Expr, env *venv) ex {
 	case *ast.CompositeLit:
 		if k, ok := tr.valueKindLit(x); ok {
 			// data.Undefined{} / data.Null{} as a value: a parameter of the translated function
-			name := "v_undefined"
+			name := "val_undefined"
 			if k == kindCode("Null") {
-				name = "v_null"
+				name = "val_null"
 			}
 			tr.fn.usesV = true
 			tr.fn.valueParams[name] = true
@@ -330,6 +331,15 @@ func (tr *gtTr) field(v *gvar, name string) ex {
 			if !fl.typ.supported() {
 				gtFail("field %s.%s has type %s, which is outside the subset", v.goName, name, fl.typ.name)
 			}
+			// the flattened name must not capture (or be captured by) a local variable's name
+			flat := sv.coq + "_" + name
+			if !tr.fieldNames[flat] {
+				if tr.names[flat] > 0 {
+					gtFail("the name %s of field %s.%s clashes with a local variable", flat, v.goName, name)
+				}
+				tr.fieldNames[flat] = true
+				tr.names[flat] = 1
+			}
 			if tr.usedFields[sv.goName] == nil {
 				tr.usedFields[sv.goName] = map[string]bool{}
 			}
@@ -380,8 +390,8 @@ func (tr *gtTr) valueKindLit(e ast.Expr) (int, bool) {
 
 func (tr *gtTr) kindOf(code string) string {
 	tr.fn.usesV = true
-	tr.fn.valueParams["v_kind"] = true
-	return "(v_kind " + code + ")"
+	tr.fn.valueParams["val_kind"] = true
+	return "(val_kind " + code + ")"
 }
 
 func (tr *gtTr) binary(x *ast.BinaryExpr, env *venv) ex {
@@ -945,7 +955,7 @@ func (tr *gtTr) library(pkg, name string, c *ast.CallExpr, env *venv) ex {
 }
 
 // toValue: the implicit conversion of a concrete data.Bool / data.Int / data.String to the interface data.Value.
-var valueCtor = map[string]struct{ name, typ string }{"Bool": {"v_of_bool", "bool -> V"}, "Int": {"v_of_int", "Z -> V"}, "String": {"v_of_string", "bstr -> V"}}
+var valueCtor = map[string]struct{ name, typ string }{"Bool": {"val_of_bool", "bool -> V"}, "Int": {"val_of_int", "Z -> V"}, "String": {"val_of_string", "bstr -> V"}}
 
 func (tr *gtTr) toValue(v ex, what string) ex {
 	if v.typ.kind == kValue {
@@ -963,7 +973,7 @@ func (tr *gtTr) toValue(v ex, what string) ex {
 }
 
 // x.(data.T) in its one-valued form: the payload, or a panic when x holds another type.  The projection is a
-// parameter v_as_<kind> : V -> option <payload>.
+// parameter val_as_<kind> : V -> option <payload>.
 func (tr *gtTr) assertPayload(x *ast.TypeAssertExpr, env *venv) ex {
 	if x.Type == nil {
 		gtFail("x.(type) outside a type switch")
@@ -976,7 +986,7 @@ func (tr *gtTr) assertPayload(x *ast.TypeAssertExpr, env *venv) ex {
 	if t.valueKind < 0 {
 		gtFail("type assertion to %s, which is not a concrete data type", t.name)
 	}
-	name := "v_as_" + strings.ToLower(valueKinds[t.valueKind])
+	name := "val_as_" + strings.ToLower(valueKinds[t.valueKind])
 	found := false
 	for _, vp := range valueParamOrder {
 		if vp.name == name {
